@@ -19,6 +19,38 @@ non-negative values (`Dy.floor_spec`).  The theorems therefore speak about the e
 namespace GeffProps.C19
 open Geff.Np Geff.Seg
 
+/-! ## vocabulary of the specifications
+
+The predicates used below are defined next to the loop invariants in
+`GeffProofs/Segmentation.lean`; they are restated here (definitionally) so that this file can be
+read on its own. -/
+
+/-- time point `t` lies on axis `ti` of the volume -/
+example (v : Vol) (ti : Nat) (t : Int) :
+    TimeIn v ti t ↔ ∃ n : Nat, v.shape[ti]? = some n ∧ 0 ≤ t ∧ t < n := Iff.rfl
+/-- label `id` occurs in a cell whose index along axis `ti` is `t` -/
+example (v : Vol) (ti : Nat) (t id : Int) :
+    LabelAt v ti t id ↔ ∃ idx, (idx, id) ∈ v.cells ∧ idx[ti]? = some t.toNat := Iff.rfl
+/-- axis `a`, checked against dimension `i`: it has a maximum and `max < extent * scale` -/
+example (shape : List Nat) (scale : List Dy) (i : Nat) (a : Axis) :
+    AxisIn shape scale i a ↔ ∃ mx n s, a.max = some mx ∧ shape[i]? = some n ∧ scale[i]? = some s ∧
+      mx.Lt (Dy.mul (Dy.ofInt n) s) := Iff.rfl
+/-- every scaled value lies inside its axis: `0 ≤ x < extent`, and there is one per dimension -/
+example (c : Dy) (cs : List Dy) (n : Nat) (ns : List Nat) :
+    CoordIn (c :: cs) (n :: ns) ↔ (Dy.ofInt 0).Le c ∧ c.Lt (Dy.ofInt n) ∧ CoordIn cs ns := Iff.rfl
+example : CoordIn [] [] ↔ True := Iff.rfl
+example (c : Dy) (cs : List Dy) : CoordIn (c :: cs) [] ↔ False := Iff.rfl
+example (n : Nat) (ns : List Nat) : CoordIn [] (n :: ns) ↔ False := Iff.rfl
+/-- a coordinate is well formed / the pixel under it carries label `id` -/
+example (v : Vol) (scale coord : List Dy) :
+    CoordOK v scale coord ↔ coord.length = v.ndim ∧ CoordIn (List.zipWith Dy.mul coord scale) v.shape := Iff.rfl
+example (v : Vol) (scale coord : List Dy) (id : Int) :
+    PixelHas v scale coord id ↔ coord.length = v.ndim ∧ CoordIn (List.zipWith Dy.mul coord scale) v.shape ∧
+      ((List.zipWith Dy.mul coord scale).map (fun x => x.floor.toNat), id) ∈ v.cells := Iff.rfl
+/-- the order on dyadic rationals and the floor (`int(·)` on non-negative values) -/
+example (a b : Dy) : a.Lt b ↔ a.m * 2 ^ b.e < b.m * 2 ^ a.e := Iff.rfl
+example (a : Dy) (k : Int) : a.floor = k ↔ (Dy.ofInt k).Le a ∧ a.Lt (Dy.ofInt (k + 1)) := Dy.floor_spec a k
+
 /-! ## has_valid_seg_id -/
 
 /-- documented: the seg-id property exists, is integer typed and has no missing entry -/
@@ -212,6 +244,19 @@ theorem C19_has_seg_ids_at_time_points_iff (v : Vol) (tps ids : List Int) (axes 
     · cases h
     · rw [herr]; exact h
 
+/-- **the message is explanatory**: when some time point is out of range, the result is false, its
+last message names the *first* out-of-range time point of the list, and the messages before it are
+"missing label" messages of the earlier (in-range) time points. -/
+theorem C19_time_points_message (v : Vol) (tps ids : List Int) (axes : Option (List Axis))
+    (hbad : ∃ t ∈ tps, ¬ TimeIn v (timeIndex axes) t) :
+    ∃ j, ∃ hj : j < tps.length, ¬ TimeIn v (timeIndex axes) tps[j] ∧
+      (∀ i (hi : i < tps.length), i < j → TimeIn v (timeIndex axes) tps[i]) ∧
+      ∃ mid, hasSegIdsAtTimePoints v tps ids axes = .ok ⟨false, mid ++ [Msg.timeOutOfBounds tps[j]]⟩ ∧
+        ∀ m ∈ mid, ∃ id t, m = Msg.missingLabel id t := by
+  obtain ⟨j, hj, h1, h2, mid, h3, h4⟩ :=
+    timeLoop_first_bad v (timeIndex axes) (tps.zip ids) tps [] false hbad
+  exact ⟨j, hj, h1, h2, mid, by simpa [hasSegIdsAtTimePoints] using h3, h4⟩
+
 /-! ## has_seg_ids_at_coords -/
 
 /-- documented: as many coordinates as seg ids, one scale factor per dimension, and for every pair
@@ -245,6 +290,37 @@ theorem C19_has_seg_ids_at_coords_iff (v : Vol) (hwf : v.WF) (coords : List (Lis
   · refine ⟨⟨false, [.lengthMismatch]⟩, by simp [hl], ?_, by simp⟩
     simp only [Bool.false_eq_true, false_iff]
     rintro ⟨h, -⟩; exact hl h
+
+/-- **the message is explanatory**: when the lists have matching lengths and some coordinate has
+the wrong number of values or a scaled value outside its axis, the result is false with exactly
+one message, which names the *first* such pair and says which of the two is wrong. -/
+theorem C19_coords_message (v : Vol) (hwf : v.WF) (coords : List (List Dy)) (ids : List Int)
+    (scale : Option (List Dy)) (hl : coords.length = ids.length)
+    (hs : (defaultScale scale v.ndim).length = v.ndim)
+    (hbad : ∃ p ∈ coords.zip ids, ¬ CoordOK v (defaultScale scale v.ndim) p.1) :
+    ∃ j, ∃ hj : j < (coords.zip ids).length,
+      ¬ CoordOK v (defaultScale scale v.ndim) (coords.zip ids)[j].1 ∧
+      (∀ i (hi : i < (coords.zip ids).length), i < j →
+        CoordOK v (defaultScale scale v.ndim) (coords.zip ids)[i].1) ∧
+      hasSegIdsAtCoords v coords ids scale = .ok ⟨false,
+        [if (coords.zip ids)[j].1.length ≠ v.ndim then Msg.coordLength j else Msg.coordOutOfBounds j]⟩ := by
+  obtain ⟨j, hj, h1, h2, h3⟩ :=
+    coordLoop_first_bad v hwf (defaultScale scale v.ndim) hs (coords.zip ids) 0 false hbad
+  refine ⟨j, hj, h1, h2, ?_⟩
+  unfold hasSegIdsAtCoords
+  simp only [hl, ne_eq, not_true_eq_false, ↓reduceIte, hs]
+  simpa using h3
+
+/-- a label mismatch alone (all coordinates well formed and in range) is reported without a
+message, as the implementation documents ("False if … there is no match") -/
+theorem C19_coords_mismatch_silent (v : Vol) (hwf : v.WF) (coords : List (List Dy)) (ids : List Int)
+    (scale : Option (List Dy)) (hl : coords.length = ids.length)
+    (hs : (defaultScale scale v.ndim).length = v.ndim)
+    (hgood : ∀ p ∈ coords.zip ids, CoordOK v (defaultScale scale v.ndim) p.1) :
+    ∃ r, hasSegIdsAtCoords v coords ids scale = .ok r ∧ r.errors = [] := by
+  obtain ⟨r, hr, -, -, hg⟩ :=
+    coordLoop_spec v hwf (defaultScale scale v.ndim) hs (coords.zip ids) 0 false
+  exact ⟨r, by simp [hasSegIdsAtCoords, hl, hs, hr], hg hgood⟩
 
 /-! ## never an exception -/
 
